@@ -1609,3 +1609,13 @@ Proof.
   intros e s SR [D [_ [_ [_ [_ [_ [_ [_ [_ [Rn [Go Fo]]]]]]]]]]] P.
   destruct (Rn P Go) as [r [Hr [NHr [Shr Ir]]]]. exists r. split; auto. apply inv_disk_ok; auto.
 Qed.
+
+(* C05 over histories with failed updates: every update that succeeds leaves the files right *)
+Theorem disk_invariant_after_faults : forall e, shard_range e ->
+  forall h, wf_hist e inst_empty h ->
+  forall l fs s', wf_batch e (i_cfg (run_f e inst_empty h)) l -> armed fs FReloadSilent = false ->
+    step_f e fs (run_f e inst_empty h) l = (s', false) ->
+    disk_ok e (i_cfg s') (i_disk s').
+Proof.
+  intros e SR h W l fs s' Wl NS U. destruct (success_is_convergence e SR h W l fs s' Wl NS U) as [_ [D _]]. exact D.
+Qed.
